@@ -7,6 +7,7 @@ From Eino Require Import Proofs.ConcatKeyed Proofs.ConcatMsgMap.
 From Eino Require Import Proofs.ConcatSuffix Proofs.ConcatSuffixMsg Proofs.ConcatSuffixMap Proofs.ConcatAny Proofs.ConcatSplit.
 From Eino Require Import Model.ConcatStream Proofs.ConcatStream.
 From Eino Require Import Model.ConcatDeep Proofs.ConcatKinds Proofs.ConcatDeep Proofs.ConcatDeepEmbed.
+From Eino Require Import Model.ConcatDeepOrder Proofs.ConcatDeepOrder Model.ConcatOrderList Proofs.ConcatOrderList.
 From Coq Require Import Sorting.Sorted Sorting.Permutation.
 
 (* Every theorem quantifies over the registry [U] of concat functions registered by the
@@ -979,3 +980,64 @@ Theorem deep_extends_msgmap :
     dmap_stream (map d_of_mmap l) = res_map d_of_mmap (mmap_stream l).
 Proof. exact @dmap_stream_embed. Qed.
 Print Assumptions deep_extends_msgmap.
+
+(* Determinism of the nested model under Go's map iteration: [dmap_stream_o s] is the entry
+   point with every concatMaps call of the call tree (one per nested map key) visiting its keys
+   in the order the schedule [s] dictates; [dmeq] = equal as lookup functions at every depth.
+   Whatever the schedule, the result is the Go value [dmap_stream] computes, or both are errors.
+   (The concatenations below the map structure -- ConcatMessages with its Extra maps, the
+   ordinary values -- are covered by msg_concat_deterministic / concat_deterministic.) *)
+Theorem deep_deterministic :
+  forall (U : UserFn) (L : UserLaw) (s : sched) (l : list (list (string * dval))),
+    sched_ok s ->
+    match dmap_stream_o s l, dmap_stream l with
+    | Ok a, Ok b => dmeq a b
+    | Err _, Err _ => True
+    | _, _ => False
+    end.
+Proof.
+  intros U L s l Hs. pose proof (dmap_stream_order s l Hs) as R. pose proof (dmap_stream_no_panic l) as P.
+  unfold rrel in R. destruct (dmap_stream_o s l), (dmap_stream l); try contradiction; auto.
+Qed.
+Print Assumptions deep_deterministic.
+
+Example deep_deterministic_nonvacuous :
+  let c1 := [("a"%string, DMsg ex_m1); ("in"%string, DMap [("x"%string, DMsg ex_m1); ("y"%string, DVal (CStr "s"))])] in
+  let c2 := [("in"%string, DMap [("y"%string, DVal (CStr "t")); ("x"%string, DMsg ex_m2)]); ("a"%string, DMsg ex_m2)] in
+  sched_ok (rev_sched 3) /\
+  exists m, concat_msgs [Some ex_m1; Some ex_m2] = Ok m /\
+    dmap_stream [c1; c2] = Ok [("a"%string, DMsg m); ("in"%string, DMap [("x"%string, DMsg m); ("y"%string, DVal (CStr "st"))])] /\
+    dmap_stream_o (rev_sched 3) [c1; c2] = Ok [("in"%string, DMap [("y"%string, DVal (CStr "st")); ("x"%string, DMsg m)]); ("a"%string, DMsg m)].
+Proof.
+  split; [apply rev_sched_ok|]. eexists. split; [vm_compute; reflexivity|]. split; vm_compute; reflexivity.
+Qed.
+
+(* Message lists: concatMessageArray / concatStreamReader[[]*Message] with both sources of
+   arbitrary order inside every position's ConcatMessages call, on any rendering of the
+   chunks' Extra maps: the same list of Go values, or both are errors. *)
+Theorem msglist_deterministic :
+  forall (U : UserFn) (L : UserLaw) (po : list Z -> list Z) (s : sched) (l l' : list (list (option msg))),
+    (forall x, Permutation (po x) x) -> sched_ok s -> Forall2 (Forall2 omsg_same) l l' ->
+    match msglist_stream_o po s l, msglist_stream l' with
+    | Ok a, Ok b => Forall2 omsg_same a b
+    | Err _, Err _ => True
+    | _, _ => False
+    end.
+Proof.
+  intros U L po s l l' Hpo Hs H. pose proof (msglist_stream_order po s l l' Hpo Hs H) as R.
+  pose proof (msglist_stream_no_panic l') as P.
+  unfold rrel in R. destruct (msglist_stream_o po s l), (msglist_stream l'); try contradiction; auto.
+Qed.
+Print Assumptions msglist_deterministic.
+
+Example msglist_deterministic_nonvacuous :
+  exists r r', msglist_stream_o (@rev Z) (rev_sched 2) [[Some ex_m1; None]; [Some ex_m2; Some ex_m3]; [Some ex_m3; None]] = Ok r /\
+    msglist_stream [[Some ex_m1; None]; [Some ex_m2; Some ex_m3]; [Some ex_m3; None]] = Ok r' /\
+    Forall2 omsg_same r r' /\ r <> r'.
+Proof.
+  eexists. eexists. split; [vm_compute; reflexivity|]. split; [vm_compute; reflexivity|]. split.
+  - constructor; [|constructor; [|constructor]].
+    + cbn. repeat split. apply (ceqb_sound 3). vm_compute. reflexivity.
+    + cbn. apply msg_same_refl.
+  - discriminate.
+Qed.
